@@ -17,6 +17,20 @@
 (***************************************************************************)
 EXTENDS Bytes, UriCanon, Headers, Iso8601, Utf8, Charsets
 
+\* An absolute-form target (scheme://authority[/path][?query]) denotes the same path and query as its origin form:
+\* the http crate reports path "/" when there is none.  AuthLen = length of the scheme://authority prefix (0: origin form)
+AuthLen(u) ==
+    IF u = <<>> \/ u[1] = SLASH THEN 0
+    ELSE LET marks == {i \in 1..(Len(u) - 2) : u[i] = 58 /\ u[i + 1] = SLASH /\ u[i + 2] = SLASH} IN
+         IF marks = {} THEN 0
+         ELSE LET s == Min(marks) + 3
+                  ends == {i \in s..Len(u) : u[i] \in {SLASH, 63}}
+              IN IF ends = {} THEN Len(u) ELSE Min(ends) - 1
+OriginForm(u) ==
+    LET rest == SubSeq(u, AuthLen(u) + 1, Len(u))
+    IN IF AuthLen(u) > 0 /\ (rest = <<>> \/ rest[1] = 63) THEN <<SLASH>> \o rest ELSE rest
+
+
 LF == 10
 
 bAuthorization == B("authorization")
